@@ -6,6 +6,9 @@ roles give access to the unit and whose scope selects the unit, and the row is n
 notification is about; no row is posted twice in any database reachable through the repository operations.
 Tie half: real `WebPushRepository` on in-memory SQLite + real `WebPushPublisher.publish_message` with a fake
 `_post_webpush`, vs the model, on generated histories of preference saves / subscriptions / deletions / publishes.
+End-to-end stream: a registered engine and the real `FromFrontend.save_method / request_cancel / request_force /
+excute_command / excute_control_button_command` (fake dispatcher answering ok) in front of the real publisher, so that the
+notification is constructed by `publish_new_contributor_notification`; the oracle takes the contributor from the request.
 Oracle: the subscriptions are derived from the history (each subscribe call of user u with endpoint e), entitlement from
 the property text; the (user, endpoint) pairs handed to the sender must be exactly the entitled subscriptions.
 """
@@ -26,12 +29,18 @@ META = dict(
                "and whose scope selects the unit - all accessible / contributed-to / listed - and it is not the contributor "
                "of a new-contributor notification); hence notified_only_entitled and contributor_not_notified; "
                "notified_at_most_once for every database reachable by the repository operations (distinct row ids, one "
-               "preference row per user proved as invariants). The model is tied to WebPushRepository / "
-               "WebPushPublisher.publish_message by differential execution on in-memory SQLite.",
+               "preference row per user proved as invariants). End to end: contribute_notifies_iff / acting_user_never_notified "
+               "compose the construction of the notification by FromFrontend.publish_new_contributor_notification (tail of "
+               "save_method, request_cancel, request_force, excute_command, excute_control_button_command) with "
+               "notified_iff: the acting user is never notified about their own contribution, the other entitled "
+               "subscriptions are. The model is tied to WebPushRepository / "
+               "WebPushPublisher.publish_message and to the real FromFrontend requests by differential execution on in-memory "
+               "SQLite.",
     level_note="Code as it is (no repair needed). `topics.contains(topic)` is SQL LIKE on the JSON text; it is modelled as "
                "list membership and that is validated on every run against the real repository for all 1- and 2-element "
                "lists of NotificationTopic values (a LIKE window cannot span more than two names); topics outside the enum "
-               "cannot be stored through the API. Every subscribe call is a subscription (user, endpoint); the same endpoint posted twice or by two users gives two (the oracle derives them from the history, not from the table). Trusted: Lean "
+               "cannot be stored through the API; topics are numbered by their position in the enum of the tree under test (no "
+               "hard-coded indices, the model is parametric in the number of NEW_CONTRIBUTOR). Every subscribe call is a subscription (user, endpoint); the same endpoint posted twice or by two users gives two (the oracle derives them from the history, not from the table). Trusted: Lean "
                "kernel (+ propext/Classical.choice/Quot.sound), the harness, SQLAlchemy/SQLite (IN, rowid allocation: "
                "differential only). Encryption and the HTTP post are replaced by a recording sender.",
     technique="Lean 4 proof (membership characterisation of the three scope lists + SQL IN as filter; sublist argument "
@@ -75,6 +84,17 @@ def _init_topics() -> None:
     NT = len(ts)
     NEW_CONTRIBUTOR = ts.index(NotificationTopic.NEW_CONTRIBUTOR)
     OTHER, UNSEL = [i for i in range(NT) if i != NEW_CONTRIBUTOR][:2]
+
+
+def _resolve(x):
+    """Corpus cases name topics symbolically ("NC", "OTHER", "UNSEL"): put in the numbers of the tree under test."""
+    if isinstance(x, str):
+        return {"NC": NEW_CONTRIBUTOR, "OTHER": OTHER, "UNSEL": UNSEL}.get(x, x)
+    if isinstance(x, list):
+        return [_resolve(y) for y in x]
+    if isinstance(x, dict):
+        return {k: (_resolve(v) if k == "ops" else v) for k, v in x.items()}
+    return x
 
 
 def _scope(i: int):
@@ -615,7 +635,7 @@ def _count(ctx: Check, case) -> None:
 def run(ctx: Check) -> int:
     ctx.prove(MODULE, REQUIRED)
     _init_topics()
-    corpus = [c for c in load_corpus(ctx.id) if "ops" in c]
+    corpus = [_resolve(c) for c in load_corpus(ctx.id) if "ops" in c]
     small = gen_exhaustive() + gen_shared()
     e2e = gen_e2e_small() + gen_e2e(ctx, ctx.n(250, 5000))
     rnd = gen_random(ctx, ctx.n(700, 15000))
